@@ -595,7 +595,9 @@ def child_e2e(root: Path, case: Dict[str, Any]) -> Dict[str, Any]:
             rec["outcome"] = "exception-after-send" if sent_log else "exception"
             rec["exception"] = type(e).__name__
             rec["message"] = str(e)[:300]
-        rec["log"] = list(smod.LOG) if smod is not None else []
+        # plain data only: a member of a generated `class E(str, Enum)` that reached a serialize function is a str for `canon`
+        # and would otherwise travel as an object of the generated package (unpicklable in the parent)
+        rec["log"] = json.loads(json.dumps(list(smod.LOG), default=repr)) if smod is not None else []
         if sent_log:
             sent = sent_log[0].get("variables")
             rec["sent"] = sent
@@ -698,13 +700,11 @@ def _run_program(prog: Dict[str, Any], pkg: Any, case: Dict[str, Any], run_call:
         for b, o in enumerate(objs):
             if o is x:
                 return {"ref": b}
-        if isinstance(x, list):
-            return {"tree": "list"}
         if isinstance(x, BaseModel):
             return {"tree": "model"}
-        if isinstance(x, dict):
-            return {"tree": "dict", "value": _plain(x)}
-        return {"imm": argwire.leaf_json(x)}
+        # a list / dict that is not one of the caller's objects is a LEAF here (the raw value of an untyped custom scalar);
+        # where the model expects a reference (a list item that was an instance and is now its dump) it differs from it
+        return {"imm": _plain(argwire.leaf_json(x))}
 
     store_after = []
     for o in objs:
@@ -1412,7 +1412,7 @@ def judge_e2e(ctx: Ctx, st: Optional[LeanStatus], res: Result, cases: List[Dict[
                 res.count("program:call-inside-trigger" if inside else "program:call-outside-triggers")
                 for sig, var, detail in judge_call(case, out, now, rec):
                     trig = trigger_for(ir, pdefs, case, sig, var, detail)
-                    per_case[ci].append(Failure(sig if k == 1 else sig + "-on-later-call", trig, pinp,
+                    per_case[ci].append(Failure(sig, trig, pinp,
                                                 f"call #{k} of the program, op {stp['op']} ${var}: {detail}"))
                 views.append((now, rec, inside))
             if out.get("inputs") is not None and all(methods.get(stp["op"]) is not None for stp in prog["steps"] if stp["k"] == "call"):
